@@ -41,7 +41,8 @@ ASSUMPTIONS = [
     "a FortranSyntaxError or a returned tree whose str()/repr() succeed are the only "
     "acceptable ends; under an injected EIO the reader constructor may raise OSError and the "
     "injected exception object itself may escape the parse -- nothing else is relaxed",
-    "the step budget (200000 + 20000 x physical lines rule constructions) and the wall "
+    "the step budget (200000 + 20000 x physical lines rule constructions, where lines re-served "
+    "by the simulated file system through recursive INCLUDEs count as input) and the wall "
     "watchdog are the 'generous time bound'",
     "string readers receive the bytes decoded with errors='replace' (a str cannot hold invalid "
     "UTF-8); file readers receive the raw bytes",
@@ -487,7 +488,8 @@ def execute(case):
                 probe("file_changed_between_opens")
             source = "main.f90" if kind != "string" else data.decode("utf-8", "replace")
             parser = fp.create(std)
-            clock.start(_budget(nlines))
+            clock.start(_budget(nlines), lambda: _budget(
+                nlines + stats["logical"].get("newlines_served", 0)))
             reader = None
             outcome = None
             try:
